@@ -5,6 +5,7 @@ import (
 	"fmt"
 	"reflect"
 	"sort"
+	"time"
 
 	"github.com/go-i2p/common/certificate"
 	"github.com/go-i2p/common/data"
@@ -223,6 +224,50 @@ func runC19(c *Ctx) {
 		got := e3 == nil
 		okk := want == got && (!got || bytes.Equal(s3.Bytes(), a.bytes))
 		c.Check("entry_points_agree", okk, "ReadSignature vs NewSignatureFromBytes", [][]byte{w, ex[0]}, "", fmt.Sprintf("reader ok=%v rem=%d, exact ok=%v", a.ok, len(a.rem), got))
+	}
+	// one instant, every way of making a Date of it: from the wire, from milliseconds, from seconds,
+	// from a time.Time — over the whole range of the 8-byte field below 2^63 ms
+	{
+		var instants []int64
+		for k := uint(0); k < 63; k++ {
+			instants = append(instants, int64(1)<<k, int64(1)<<k-1, (int64(1)<<k)/1000*1000)
+		}
+		for i := 0; i < c.N(60, 2000); i++ {
+			instants = append(instants, int64(r.U64()>>(1+uint(r.Intn(62)))))
+		}
+		for _, ms := range instants {
+			if ms < 0 {
+				continue
+			}
+			w := beBytes(uint64(ms), 8)
+			var views []string
+			var outs [][]byte
+			add := func(name string, b []byte, ok bool) {
+				if ok {
+					views = append(views, name)
+					outs = append(outs, cp(b))
+				}
+			}
+			if v, _, e := data.ReadDate(w); e == nil {
+				add("ReadDate", v.Bytes(), true)
+			}
+			if d, e := data.NewDateFromMillis(ms); e == nil && d != nil {
+				add("NewDateFromMillis", d.Bytes(), true)
+			}
+			if d, e := data.DateFromTime(time.UnixMilli(ms)); e == nil && d != nil {
+				add("DateFromTime", d.Bytes(), true)
+			}
+			if ms%1000 == 0 {
+				if d, e := data.NewDateFromUnix(ms / 1000); e == nil && d != nil {
+					add("NewDateFromUnix", d.Bytes(), true)
+				}
+			}
+			same := len(outs) >= 3
+			for _, o := range outs {
+				same = same && bytes.Equal(o, w)
+			}
+			c.Check("entry_points_agree", same, "Date entry points", [][]byte{i64(ms)}, "", fmt.Sprintf("ms=%d: %v give %x", ms, views, outs))
+		}
 	}
 	// fixed-size readers: value vs pointer
 	for i := 0; i < c.N(200, 4000); i++ {
